@@ -65,7 +65,11 @@ func (d *mapTypeFieldTextDecoder) Decode(req *protocol.Request, params param.Par
 				defaultValue = tagInfo.Default
 				found := checkRequireJSON(req, tagInfo)
 				if found {
-					err = nil
+					// a json tag that is not itself required only satisfies the 'required'
+					// of an earlier tag when the body really carries the key
+					if tagInfo.Required || keyExist(req, tagInfo) {
+						err = nil
+					}
 				} else {
 					err = fmt.Errorf("'%s' field is a 'required' parameter, but the request does not have this parameter", tagInfo.Value)
 				}
